@@ -219,6 +219,19 @@ func main() {
 			if h.Ent {
 				g.script = "enterprise-close"
 			}
+			if g.script == "tiny-validator-reward" {
+				// several rewarded validators and a non-zero validator share
+				if h.Conf.ValidatorReward == 0 || h.Conf.ValidatorReward > 0.1 {
+					h.Conf.ValidatorReward = 0.025
+				}
+				if h.Conf.ValidatorsPerChal < 2 {
+					h.Conf.ValidatorsPerChal = 2 + hr.Intn(2)
+				}
+				if h.NVal < h.Conf.ValidatorsPerChal {
+					h.NVal = h.Conf.ValidatorsPerChal
+				}
+				h.Conf.NumValRewarded = h.Conf.ValidatorsPerChal
+			}
 		}
 		run := NewRun(h)
 		nops := hr.Range(5, o.N(40, 80))
